@@ -6,6 +6,7 @@ import (
 	"fmt"
 	"go/token"
 	"go/types"
+	"sort"
 	"strings"
 
 	"golang.org/x/tools/go/ssa"
@@ -14,7 +15,7 @@ import (
 func init() {
 	register(&propSpec{ID: "C02", Run: checkC02,
 		Explanation: "(a) every call in the scan body that can reach an action site executes only on paths where a locked() call on this group's scale lock was evaluated earlier in the same invocation and returned false; (b) lock() is called only from ScaleUp, on this group's lock, only after the cloud step returned err == nil, and every success path passes through it; (c) lock() sets isLocked and lockTime ← time.Now() unconditionally, locked() can return true only under Since(lockTime) < minimumLockDuration (unlock() leaves isLocked false on all paths), minimumLockDuration is configured from the same options' scale_up_cool_down_period at both construction sites and never stored elsewhere.",
-		RuleText:    "R1 one obligation per ACT call in the scan body; R2 arming (guard + must-pass-through + callers); R3 lock/locked/unlock bodies; R4 scaleLock construction sites and field store census; R5 one clock",
+		RuleText:    "R1 one obligation per ACT call in the scan body; R2 arming (guard + must-pass-through + callers); R3 lock/locked/unlock bodies; R4 scaleLock construction sites and field store census; R5 one clock; R6 armed last: no action-reaching call follows a lock-arming call in the scan body",
 		Assumptions: []string{"elapsed wall-clock time itself is not decided; the lock is in memory (within one controller lifetime, as the statement says)"}})
 	register(&propSpec{ID: "C03", Run: checkC03,
 		Explanation: "Per scan: at the call of the taint loop the linear fact n + min_nodes ≤ len(untainted) holds on every path (Fourier–Motzkin over the clamp's two paths); the taint loop is a bounded accumulator (≤ 1 taint write per iteration, exits before the write once n writes succeeded, accumulator grows on every success) so successes ≤ max(n,0); targets are elements of the classifier's untainted list, whose append requires ¬cordoned ∧ ¬tainted ∧ ¬forced; ScaleDown is reachable only when len(untainted) ≥ min_nodes and the below-minimum branch only scales up by min − len(untainted); auto-discovered bounds are the cloud group's own MinSize/MaxSize.",
@@ -157,6 +158,7 @@ func checkC02(ck *Check) {
 
 	ck.lockBodies("C02.R3")
 	ck.lockConstruction("C02.R4")
+	ck.armedLast("C02.R6")
 	// R3 (continued): nothing else releases or forges the lock
 	{
 		var bad []string
@@ -193,6 +195,89 @@ func checkC02(ck *Check) {
 			}
 		}
 	}
+}
+
+// armedLast (C02.R6): once a call that can arm the scale lock has run, the same scan of the group
+// performs no further action: no call that can reach an action site is reachable, in the control
+// flow of any function of the scan body, from a call that can reach lock().
+func (ck *Check) armedLast(rule string) {
+	a := ck.A
+	reach := ck.P.reachCut([]*ssa.Function{a.Scan}, nil)
+	var fns []*ssa.Function
+	for fn := range reach {
+		if ck.P.inRepo(fn) && fn.Blocks != nil {
+			fns = append(fns, fn)
+		}
+	}
+	sort.Slice(fns, func(i, j int) bool { return funcID(fns[i]) < funcID(fns[j]) })
+	actFns := map[*ssa.Function]bool{}
+	actSite := map[ssa.Instruction]bool{}
+	for _, s := range a.A {
+		if s.Class != "A-CLOUD-DEC" {
+			actFns[s.Fn] = true
+			actSite[s.Call] = true
+		}
+	}
+	reachOf := map[*ssa.Function]map[*ssa.Function]bool{}
+	rc := func(g *ssa.Function) map[*ssa.Function]bool {
+		if r, ok := reachOf[g]; ok {
+			return r
+		}
+		r := ck.P.reachCut([]*ssa.Function{g}, nil)
+		reachOf[g] = r
+		return r
+	}
+	arms := func(ci ssa.CallInstruction) bool {
+		for _, g := range ck.P.calleesOf(ci) {
+			if g == a.Lock || rc(g)[a.Lock] {
+				return true
+			}
+		}
+		return false
+	}
+	acts := func(ci ssa.CallInstruction) bool {
+		if actSite[ci] {
+			return true
+		}
+		for _, g := range ck.P.calleesOf(ci) {
+			r := rc(g)
+			for f := range actFns {
+				if r[f] {
+					return true
+				}
+			}
+		}
+		return false
+	}
+	nArm := 0
+	for _, fn := range fns {
+		calls := callsIn(fn, nil)
+		ctx := ck.P.NewCtx(fn)
+		ord := 0
+		for _, e := range calls {
+			if !arms(e) {
+				continue
+			}
+			nArm++
+			key := fmt.Sprintf("%s/arming#%d:%s", funcID(fn), ord, calleeName(e))
+			ord++
+			var after []string
+			for _, d := range calls {
+				if !acts(d) {
+					continue
+				}
+				if sat, err := Satisfiable(ctx.PC(d)); err == nil && !sat {
+					continue
+				}
+				if reachesWithout(e, d, func(ssa.Instruction) bool { return false }) {
+					after = append(after, calleeName(d)+" at "+ck.P.instrPos(d))
+				}
+			}
+			ck.cond(len(after) == 0, rule, key, ck.P.instrPos(e), funcID(fn), "no call that can reach an action site follows, in the same scan of the group, a call that can arm the scale lock", "",
+				"after the cloud provider accepted a scale-up (lock armed) the scan goes on to act on the group: "+strings.Join(after, ", "))
+		}
+	}
+	ck.floor(rule, "calls in the scan body that can arm the lock", nArm, 3)
 }
 
 // lockBodies: C02.R3 and R5.
@@ -443,6 +528,8 @@ func checkC03(ck *Check) {
 	ck.recoveryBranch("C03.R4")
 	// R5 auto discovery
 	ck.autoDiscovery("C03.R5")
+	// R6 a node counts as tainted only when the server confirmed the write
+	ck.writeConfirmed("C03.R6", a.AddTaint)
 }
 
 // boundedEffectLoop: fn's effect call of class cls sits in a bounded-accumulator loop bounded by
